@@ -30,6 +30,8 @@ def spaces(odl, np):
         'pow-w-array': odl.ProductSpace(r3, 2, weighting=[1.0, 3.0]),
         'pow-w-const': odl.ProductSpace(r3, 3, weighting=2.5),
         'pow-discr': d4 ** 2,
+        'rn5-f32': odl.rn(5, dtype='float32'),
+        'discr5-f32': odl.uniform_discr(0, 1, 5, dtype='float32'),
     }
 
 
@@ -62,6 +64,14 @@ def pool():
         P['QuadraticForm/' + k] = lambda X=X: S.QuadraticForm(operator=odl.ScalingOperator(X, 3.0), vector=X.element(np.linspace(-1, 1, X.size).reshape(X.shape)), constant=0.5)
         P['MoreauEnvelope-L1/' + k] = lambda X=X: S.MoreauEnvelope(S.L1Norm(X), sigma=0.7)
         P['ZeroFunctional/' + k] = lambda X=X: S.ZeroFunctional(X)
+    for k in ('rn5-f32', 'discr5-f32'):
+        # single precision: only finiteness of f(p) and in-place == out-of-place are checked (the probes need double precision)
+        X = sp[k]
+        P['IndicatorL2Ball/' + k] = lambda X=X: S.IndicatorLpUnitBall(X, 2)
+        P['IndicatorLinfBall/' + k] = lambda X=X: S.IndicatorLpUnitBall(X, float('inf'))
+        P['IndicatorBox/' + k] = lambda X=X: S.IndicatorBox(X, -0.5, 0.75)
+        P['L2Norm/' + k] = lambda X=X: S.L2Norm(X)
+        P['L1Norm/' + k] = lambda X=X: S.L1Norm(X)
     for k in pows:
         X = sp[k]
         P['GroupL1Norm-2/' + k] = lambda X=X: S.GroupL1Norm(X, 2)
@@ -147,10 +157,14 @@ def check_prox(name):
             fp = _value_up_to_rounding(f, p)
             if not np.isfinite(fp):
                 return '%s.proximal(%r)(x): f(p) = %r is not finite; x = %r, p = %r' % (name, sigma, fp, x, p), n
+            single = name.endswith('-f32')
             q = X.element()
             r = prox(x, out=q)
-            if r is not q or (q - p).norm() > 1e-10 * max(1.0, p.norm()):
+            if r is not q or (q - p).norm() > (1e-5 if single else 1e-10) * max(1.0, p.norm()):
                 return '%s.proximal(%r): in-place result differs from out-of-place (%r vs %r)' % (name, sigma, q, p), n
+
+            if single:
+                continue
 
             def obj(z):
                 return float(f(z)) + (z - x).norm() ** 2 / (2 * sigma)
@@ -175,6 +189,8 @@ def check_prox(name):
 def check_conj(name):
     """Fenchel-Young inequality at random pairs, equality at y = gradient(x) where the gradient exists, biconjugate values, Moreau decomposition"""
     odl, np = _odl()
+    if name.endswith('-f32'):
+        return None, 0          # single-precision entries serve the proximal check only (tolerances here are double precision)
     f = _build(name)
     if f is None:
         return None, 0
@@ -242,6 +258,8 @@ def check_conj(name):
 def check_grad(name):
     """inner(f.gradient(x), d) == f.derivative(x)(d) == central differences of the values, in the functional's own inner product"""
     odl, np = _odl()
+    if name.endswith('-f32'):
+        return None, 0          # single-precision entries serve the proximal check only (tolerances here are double precision)
     f = _build(name)
     if f is None:
         return None, 0
